@@ -330,3 +330,26 @@ Example ex_self_exclusion :
   rc_misc ex_rc7 = false /\ rc_sex ex_rc7 <> 0 /\ sc_sex (sr_cfg ex_run) = rc_sex ex_rc7
   /\ sr_packets ex_run <> [] /\ snd (recv_all ex_rc7 [] (map (pair 5) (sr_packets ex_run))) = [].
 Proof. vm_compute. repeat split; discriminate. Qed.
+
+(* ------------------------------------------------------------------ the read loop *)
+
+(* One DoInput(maxBytes) call over a device holding [queue] does to the receiver exactly what the
+   packets it consumed -- a prefix of the queue -- do one by one; what it did not consume stays queued.
+   So every theorem about [recv_all] over arbitrary networks speaks about any sequence of DoInput calls. *)
+Theorem recv_loop_prefix : forall rc queue t maxBytes total t' out rest,
+  recv_loop rc t maxBytes total queue = (t', out, rest) ->
+  exists n, rest = skipn n queue /\ recv_all rc t (firstn n queue) = (t', out).
+Proof.
+  intros rc. induction queue as [|[a p] q IH]; intros t mb tot t' out rest; cbn [recv_loop].
+  - intros E. injection E as <- <- <-. exists 0%nat. auto.
+  - destruct (tot <? mb).
+    2:{ intros E. injection E as <- <- <-. exists 0%nat. auto. }
+    destruct (lenN (takeN (rc_mtu rc) p) =? 0) eqn:Hz.
+    + intros E. injection E as <- <- <-. exists 1%nat. split; [reflexivity|].
+      cbn [firstn recv_all]. unfold recv_packet. rewrite Hz. reflexivity.
+    + destruct (recv_packet rc t a p) as [t1 o1] eqn:E1.
+      destruct (recv_loop rc t1 mb (tot + lenN (takeN (rc_mtu rc) p)) q) as [[t2 o2] r2] eqn:E2.
+      intros E. injection E as <- <- <-.
+      destruct (IH _ _ _ _ _ _ E2) as (n & Hr & Ha). exists (S n). split; [exact Hr|].
+      cbn [firstn recv_all]. rewrite E1, Ha. reflexivity.
+Qed.
